@@ -431,8 +431,8 @@ def k_c16(ctx):
     rng = ctx.rng
     root = os.path.join(build.CACHE, "run", "c16-%d" % os.getpid()); shutil.rmtree(root, ignore_errors=True); os.makedirs(root)
     try:
-        nproc = ctx.n(6, 30)
-        for li in range(ctx.n(10, 150)):
+        nproc = ctx.n(6, 20)
+        for li in range(ctx.n(10, 100)):
             ls = big_ledger(rng, rng.randint(4, 12), rng.randint(2, 8)) if li % 4 else gen.gen_ledger(rng, nsec=3, nlines=14)
             wd = os.path.join(root, "l%d" % li); os.makedirs(wd)
             open(os.path.join(wd, "in.cgt"), "w").write(ledger.render(ls))
